@@ -1,9 +1,9 @@
 use super::*;
 use crate::{base::SentinelRule, logging, utils};
 use crate::{Error, Result};
-use lazy_static::lazy_static;
+use crate::vsync::lazy_static;
 use std::collections::{HashMap, HashSet};
-use std::sync::{Arc, Mutex, RwLock};
+use crate::vsync::{Arc, Mutex, RwLock};
 
 pub type RuleMap = HashMap<String, HashSet<Arc<Rule>>>;
 
